@@ -23,7 +23,9 @@ import (
 	bankkeeper "github.com/cosmos/cosmos-sdk/x/bank/keeper"
 	banktypes "github.com/cosmos/cosmos-sdk/x/bank/types"
 	govtypes "github.com/cosmos/cosmos-sdk/x/gov/types"
+	"github.com/cosmos/cosmos-sdk/x/params"
 	paramskeeper "github.com/cosmos/cosmos-sdk/x/params/keeper"
+	paramproposal "github.com/cosmos/cosmos-sdk/x/params/types/proposal"
 	paramstypes "github.com/cosmos/cosmos-sdk/x/params/types"
 	slashingtypes "github.com/cosmos/cosmos-sdk/x/slashing/types"
 	abci "github.com/tendermint/tendermint/abci/types"
@@ -41,12 +43,20 @@ import (
 
 var cfgOnce sync.Once
 
+// LaxAddresses lifts the application's 20-byte address rule to the SDK's own rule (1..255 bytes). The keepers are
+// libraries that do not enforce the length themselves; a scenario that wants to see them with other address lengths
+// sets this before it builds its genesis.
+var LaxAddresses bool
+
 // SetAddressConfig mirrors module/app.SetAddressConfig (account prefix "hub",
 // 20-byte addresses) without importing the whole application.
 func SetAddressConfig() {
 	cfgOnce.Do(func() {
 		config := sdk.GetConfig()
 		config.SetAddressVerifier(func(bz []byte) error {
+			if LaxAddresses && len(bz) > 0 && len(bz) <= 255 {
+				return nil // what the SDK itself admits (the repository's own test environment installs no verifier)
+			}
 			if len(bz) != 20 {
 				return fmt.Errorf("invalid address length %d", len(bz))
 			}
@@ -146,6 +156,8 @@ type Instance struct {
 	// message fails). Only MsgDelegateKeys reads sequences, so scenarios that do not
 	// use it leave this off to avoid splitting states on failed txs.
 	AnteSeq bool
+	// BeforeCommit, if set, runs after the EndBlockers of a block and before its state is committed
+	BeforeCommit func()
 
 	blockMS sdk.CacheMultiStore
 	// Events collected since the last ResetEvents (ABCI events of Begin/EndBlock and of successful txs).
@@ -397,11 +409,44 @@ func (in *Instance) EndBlock() *Panic {
 		p = guard("oracle.EndBlocker", func() { oracle.EndBlocker(ctx, in.Oracle) })
 	}
 	in.Events = append(in.Events, ctx.EventManager().ABCIEvents()...)
+	if p == nil && in.BeforeCommit != nil {
+		in.BeforeCommit() // e.g. queries served between EndBlock and Commit (they see the last committed state)
+	}
 	if p == nil {
 		in.blockMS.Write()
 	}
 	in.blockMS = nil
 	return p
+}
+
+// Validator lifecycle: app.go registers the mhub2 keeper's staking hooks with x/staking, so the transitions of the
+// scripted staking table that x/staking announces through hooks are announced to the keeper under test as well.
+
+// ValLeave: validator i undelegates everything; its unbonding period is over and x/staking deletes the record.
+func (in *Instance) ValLeave(i int) {
+	v := &in.Staking.Vals[i]
+	oper, _ := sdk.ValAddressFromBech32(v.Oper)
+	cons := sdk.ConsAddress(oper)
+	h := in.Hub.Hooks()
+	if v.Bonded {
+		h.BeforeValidatorModified(in.Ctx(), oper)
+		h.AfterValidatorBeginUnbonding(in.Ctx(), cons, oper)
+	}
+	v.Bonded, v.Unbonding, v.Jailed, v.Removed = false, false, false, true
+	h.AfterValidatorRemoved(in.Ctx(), cons, oper)
+}
+
+// ValReturn: the same operator creates the validator again (MsgCreateValidator) and it enters the bonded set.
+func (in *Instance) ValReturn(i int, power int64) {
+	v := &in.Staking.Vals[i]
+	oper, _ := sdk.ValAddressFromBech32(v.Oper)
+	cons := sdk.ConsAddress(oper)
+	h := in.Hub.Hooks()
+	v.Removed, v.Bonded, v.Unbonding, v.Jailed, v.Power = false, true, false, false, power
+	h.AfterValidatorCreated(in.Ctx(), oper)
+	h.BeforeDelegationCreated(in.Ctx(), sdk.AccAddress(oper), oper)
+	h.AfterDelegationModified(in.Ctx(), sdk.AccAddress(oper), oper)
+	h.AfterValidatorBonded(in.Ctx(), cons, oper)
 }
 
 // IdleBlocks ends the open block, lets n-1 blocks pass in which nothing happens (height and time advance; an
@@ -577,6 +622,23 @@ func (in *Instance) Proposal(c govtypes.Content) error {
 	ctx := in.ctxOn(in.blockMS).WithTxBytes([]byte(fmt.Sprintf("verif-prop-%d", in.TxCount)))
 	cctx, write := ctx.CacheContext()
 	if err := in.proposalH(cctx, c); err != nil {
+		return err
+	}
+	write()
+	return nil
+}
+
+// ParamChange executes a governance ParameterChangeProposal (the params module's own proposal handler, which
+// validates the value with the validator the module registered for the key) inside the open block.
+func (in *Instance) ParamChange(subspace, key, jsonValue string) error {
+	if in.blockMS == nil {
+		panic("ParamChange: no open block")
+	}
+	in.TxCount++
+	ctx := in.ctxOn(in.blockMS).WithTxBytes([]byte(fmt.Sprintf("verif-prop-%d", in.TxCount)))
+	cctx, write := ctx.CacheContext()
+	h := params.NewParamChangeProposalHandler(in.ParamsK)
+	if err := h(cctx, paramproposal.NewParameterChangeProposal("t", "d", []paramproposal.ParamChange{paramproposal.NewParamChange(subspace, key, jsonValue)})); err != nil {
 		return err
 	}
 	write()
